@@ -104,6 +104,13 @@ func genDoc(r *prng) *docInfo {
 		for i := 0; i < n; i++ {
 			var v *JV
 			switch kind {
+			case "nint":
+				// numbers with null elements in between
+				if i%2 == 1 {
+					v = jNull()
+				} else {
+					v = jNum(strconv.Itoa(r.intn(40)))
+				}
 			case "int":
 				v = jNum(strconv.Itoa(r.intn(40)))
 			case "str":
@@ -151,6 +158,7 @@ func genDoc(r *prng) *docInfo {
 	root.Keys = append(root.Keys, "grid")
 	root.Xs = append(root.Xs, grid)
 	d.vals["grid"] = grid
+	mkArr("an", 2+r.intn(3), "nint")
 	mkArr("a", 1+r.intn(4), "int")
 	mkArr("b", 1+r.intn(3), "str")
 	mkArr("objs", 1+r.intn(3), "obj")
